@@ -6,6 +6,7 @@ package simbadger
 
 import (
 	"errors"
+	"os"
 
 	"github.com/dgraph-io/badger/v3"
 
@@ -46,7 +47,17 @@ var faults *Faults
 func Install(f *Faults) { faults = f }
 func Current() *Faults   { return faults }
 
-func DefaultOptions(path string) Options { return badger.DefaultOptions(path) }
+// DefaultOptions: Badger's defaults, except that (unless VERIF_BADGER_DEFAULT=1) the memtable,
+// value-log file and block cache are sized for a database of a few hundred small records. This
+// only changes how much memory and tmpfs Badger maps at Open (30 ms -> 9 ms per world); it has
+// no bearing on what fs_db asks of Badger.
+func DefaultOptions(path string) Options {
+	o := badger.DefaultOptions(path)
+	if os.Getenv("VERIF_BADGER_DEFAULT") == "1" {
+		return o
+	}
+	return o.WithMemTableSize(8 << 20).WithValueLogFileSize(4 << 20).WithBlockCacheSize(1 << 20).WithNumMemtables(2).WithNumCompactors(2)
+}
 func NewEntry(k, v []byte) *Entry        { return badger.NewEntry(k, v) }
 
 type DB struct {
